@@ -8,6 +8,22 @@ use simple_sds::ops::{Access, Pack, Pop, Push, Resize, Vector};
 use simple_sds::raw_vector::{AccessRaw, PopRaw, PushRaw, RawVector};
 use simple_sds::serialize::Serialize;
 
+// numbers as Coq terms: large ones as `W hi lo` (see coq/Check/C05.v)
+fn cn(x: u64) -> String {
+    if x < 65536 {
+        format!("{}", x)
+    } else {
+        format!("(W {} {})", x >> 32, x & 0xFFFF_FFFF)
+    }
+}
+fn cu(x: usize) -> String {
+    cn(x as u64)
+}
+fn cl(xs: &[u64]) -> String {
+    let v: Vec<String> = xs.iter().map(|x| cn(*x)).collect();
+    format!("[{}]", v.join("; "))
+}
+
 #[derive(Clone, Debug)]
 enum OutV {
     None,
@@ -21,9 +37,9 @@ fn outv(o: &OutV) -> String {
     match o {
         OutV::None => "ONone".to_string(),
         OutV::Bool(x) => format!("(OBool {})", b(*x)),
-        OutV::Nat(x) => format!("(ONat {})", x),
+        OutV::Nat(x) => format!("(ONat {})", cn(*x)),
         OutV::OptBool(x) => format!("(OOptBool {})", opt(x, |y| b(*y))),
-        OutV::OptNat(x) => format!("(OOptNat {})", opt(x, |y| n(*y))),
+        OutV::OptNat(x) => format!("(OOptNat {})", opt(x, |y| cn(*y))),
     }
 }
 
@@ -70,9 +86,9 @@ fn rop_term(o: &ROp) -> String {
         ROp::Bit(i) => format!("RBit {}", i),
         ROp::Int(off, w) => format!("RInt {} {}", off, w),
         ROp::SetBit(i, v) => format!("RSetBit {} {}", i, b(*v)),
-        ROp::SetInt(off, v, w) => format!("RSetInt {} {} {}", off, v, w),
+        ROp::SetInt(off, v, w) => format!("RSetInt {} {} {}", off, cn(*v), w),
         ROp::PushBit(v) => format!("RPushBit {}", b(*v)),
-        ROp::PushInt(v, w) => format!("RPushInt {} {}", v, w),
+        ROp::PushInt(v, w) => format!("RPushInt {} {}", cn(*v), w),
         ROp::PopBit => "RPopBit".to_string(),
         ROp::PopInt(w) => format!("RPopInt {}", w),
         ROp::CountOnes => "RCountOnes".to_string(),
@@ -135,7 +151,7 @@ fn raw_obs(v: &RawVector, out: &Res<OutV>) -> String {
         fresh.push_bit(v.bit(i));
     }
     let eqf = *v == fresh;
-    format!("RObs {} {} {} {} {} {}", ires(out, outv), len, nlist(&words), ones, nlist(&ser), b(eqf))
+    format!("RObs {} {} {} {} {} {}", ires(out, outv), len, cl(&words), ones, cl(&ser), b(eqf))
 }
 
 // a value to be written into a field of `w` bits: usually wider than the field
@@ -346,17 +362,17 @@ enum IOp {
 
 fn iop_term(o: &IOp) -> String {
     match o {
-        IOp::WithLen(l, w, v) => format!("IWithLen {} {} {}", l, w, v),
-        IOp::From(w, xs) => format!("IFrom {} {}", w, nlist(xs)),
-        IOp::Get(i) => format!("IGet {}", i),
-        IOp::Set(i, v) => format!("ISet {} {}", i, v),
-        IOp::Push(v) => format!("IPush {}", v),
+        IOp::WithLen(l, w, v) => format!("IWithLen {} {} {}", l, w, cn(*v)),
+        IOp::From(w, xs) => format!("IFrom {} {}", w, cl(xs)),
+        IOp::Get(i) => format!("IGet {}", cu(*i)),
+        IOp::Set(i, v) => format!("ISet {} {}", cu(*i), cn(*v)),
+        IOp::Push(v) => format!("IPush {}", cn(*v)),
         IOp::Pop => "IPop".to_string(),
-        IOp::Resize(l, v) => format!("IResize {} {}", l, v),
+        IOp::Resize(l, v) => format!("IResize {} {}", l, cn(*v)),
         IOp::Clear => "IClear".to_string(),
         IOp::Reserve(a) => format!("IReserve {}", a),
         IOp::Pack => "IPack".to_string(),
-        IOp::Extend(_, xs) => format!("IExtend {}", nlist(xs)),
+        IOp::Extend(_, xs) => format!("IExtend {}", cl(xs)),
         IOp::CountOnes => "ICountOnes".to_string(),
     }
 }
@@ -439,7 +455,7 @@ fn int_obs(v: &IntVector, out: &Res<OutV>) -> String {
         fresh.push(*x);
     }
     let eqf = *v == fresh;
-    format!("IObs {} {} {} {} {} {} {}", ires(out, outv), len, width, nlist(&items), ones, nlist(&ser), b(eqf))
+    format!("IObs {} {} {} {} {} {} {}", ires(out, outv), len, width, cl(&items), ones, cl(&ser), b(eqf))
 }
 
 fn typed_values(rng: &mut Rng, t: usize, count: usize) -> Vec<u64> {
@@ -572,7 +588,7 @@ fn int_alphabet(k: usize, len: usize) -> Option<IOp> {
 }
 
 fn int_exhaustive(out: &mut Out, depth: usize) {
-    let prefills: [Option<IOp>; 2] = [None, Some(IOp::WithLen(21, 3, 0xFD))];
+    let prefills: [Option<IOp>; 3] = [None, Some(IOp::WithLen(21, 3, 0xFD)), Some(IOp::WithLen(64, 3, 2))];
     let alpha = 8usize;
     let total = alpha.pow(depth as u32);
     for pre in prefills.iter() {
@@ -617,14 +633,14 @@ pub fn run(rng0: &mut Rng, out: &mut Out, thorough: bool, variant: &str) {
     // constructor domain
     for w in [0usize, 1, 2, 63, 64, 65, 66, 128, usize::MAX] {
         let ok = IntVector::new(w).is_ok();
-        out.case("int.new", format!("CNew {} {}", w, b(ok)), format!("{{\"w\":{}}}", w), true);
+        out.case("int.new", format!("CNew {} {}", cu(w), b(ok)), format!("{{\"w\":{}}}", w), true);
     }
-    // exhaustive short histories over an 8-operation alphabet at width 3, from three (raw: empty, 62 one-bits, 128 zero-bits) or two (int: empty, 21 items = 63 bits) starting states
+    // exhaustive short histories over an 8-operation alphabet at width 3, from three (raw: empty, 62 one-bits, 128 zero-bits) (int: empty, 21 items = 63 bits, 64 items = 192 bits) starting states
     let depth = if thorough { 4 } else { 3 };
     raw_exhaustive(out, depth);
     int_exhaustive(out, depth);
     // random histories
-    let n_random = if thorough { 5000 } else { 250 };
+    let n_random = if thorough { 3000 } else { 400 };
     for _ in 0..n_random {
         raw_random_history(rng, out, 40);
     }
